@@ -330,7 +330,6 @@ func runC20(p *Plan, res *Result) {
 				res.violate("C20", "subscription-error", cls, i, "subscription result carries errors: %v", sr.Errs)
 				break
 			}
-			// a result with an empty dataset is not counted: the statement speaks of results for matching changes
 			nrows := 0
 			switch v := sr.Data.(type) {
 			case map[string]any:
@@ -338,9 +337,9 @@ func runC20(p *Plan, res *Result) {
 			case []map[string]any:
 				nrows = len(v)
 			}
-			if nrows > 0 {
-				gotSub++
-			} else {
+			// a result with an empty dataset is a result too (for a change that does not match)
+			gotSub++
+			if nrows == 0 {
 				res.Stats["subscription_empty_results"]++
 			}
 		}
